@@ -53,6 +53,7 @@ def gen_case(rnd, tier, index):
     anc = set()
     for o in outputs:
         anc |= dag.ancestors(o)
+    anc = [a for a in dag.order if a in anc]     # never iterate a set: PYTHONHASHSEED
     leaf = [a for a in anc if not wbgen.is_formula_cell(dag.cell[a]) and a not in pinned]
     buried = [a for a in anc if wbgen.is_formula_cell(dag.cell[a]) and 'cse' not in dag.cell[a]]
     # ranges written literally by formulas the outputs reach, made of constants only
